@@ -5,7 +5,8 @@
  *
  * stdin protocol:
  *   P <id> <rngseed> <nbytes>\n<janet source of nbytes>      run one program, print one line  "P <id> <verdict> R=<u32,...> <log>"
- *                                                             preceded by "S <id> <log points with a wrapped items ring> <of these: full> <max ring capacity>"
+ *                                                             preceded by "S <id> <log points with a wrapped items ring> <of these: full> <max ring capacity>
+ *                                                             <forced collections> <heap payloads made> <payload contents read back>"
  *   Q <ops...>\n                                              ring-buffer script on a real JanetQueue (janet_q_*), one output line
  * Program source defines (defn vprog [] ...) using the cfuns  vchan vreg vb ve  registered below.
  */
@@ -65,9 +66,105 @@ static JanetChannel *chs[MAXC]; static int nch;
 static int fidx(JanetFiber *f) { for (int i = 0; i < nfib; i++) if (fib[i] == f) return i; return -1; }
 static int cidx(void *c) { for (int i = 0; i < nch; i++) if ((void *) chs[i] == c) return i; return -1; }
 
+/* ---- heap payloads and forced collections ------------------------------------------------------------------------
+ * (vpay kind id) makes a FRESH heap object carrying the item id: 1 string, 2 buffer, 3 array @[id string], 4 tuple
+ * [id string]; the text is "P<id>:" followed by PAY_FILL characters derived from the id.  The log prints the id read
+ * back from the CONTENT of whatever object the channel hands out; an object that the collector has already freed is
+ * printed as ?freed (ASan keeps freed blocks poisoned in its quarantine, so this is a read of the shadow, not of the
+ * block), a live object whose content is not a well-formed payload as ?corrupt.
+ * opt_gc bit 0: janet_collect() at every log point (op begin, op result, loop iteration, end);
+ *        bit 1: the JANET_VERIF safepoint hook forces a collection at every interpreter safepoint as well. */
+#if defined(__SANITIZE_ADDRESS__)
+#include <sanitizer/asan_interface.h>
+#define MEM_FREED(p, n) (__asan_region_is_poisoned((void *) (p), (n)) != NULL)
+#else
+#define MEM_FREED(p, n) 0
+#endif
+#define PAY_FILL 40
+static int opt_gc = 0;
+static long n_collections = 0, n_heap_payloads = 0, n_payload_reads = 0;
+#ifdef JANET_VERIF
+extern int (*janet_verif_gc_safepoint)(void);
+static int safepoint_always(void) { return 1; }
+#endif
+
+static void pay_text(char *out, int id) {
+    int n = sprintf(out, "P%d:", id);
+    for (int k = 0; k < PAY_FILL; k++) out[n + k] = (char) ('a' + (id * 7 + k * 3) % 26);
+    out[n + PAY_FILL] = 0;
+}
+
+/* -> id, or -1 freed, -2 corrupt */
+static int pay_read_bytes(const uint8_t *bytes, int32_t len) {
+    char want[96];
+    if (MEM_FREED(bytes, len > 0 ? (size_t) len : 1)) return -1;
+    if (len < 3 || bytes[0] != 'P') return -2;
+    int id = atoi((const char *) bytes + 1);
+    pay_text(want, id);
+    if ((int32_t) strlen(want) != len || memcmp(want, bytes, len)) return -2;
+    return id;
+}
+
+static int pay_read(Janet x) {
+    n_payload_reads++;
+    if (janet_checktype(x, JANET_STRING)) {
+        const uint8_t *s = janet_unwrap_string(x);
+        if (MEM_FREED(janet_string_head(s), sizeof(JanetStringHead))) return -1;
+        return pay_read_bytes(s, janet_string_length(s));
+    }
+    if (janet_checktype(x, JANET_BUFFER)) {
+        JanetBuffer *b = janet_unwrap_buffer(x);
+        if (MEM_FREED(b, sizeof *b)) return -1;
+        return pay_read_bytes(b->data, b->count);
+    }
+    const Janet *d; int32_t n;
+    if (janet_checktype(x, JANET_ARRAY)) {
+        JanetArray *a = janet_unwrap_array(x);
+        if (MEM_FREED(a, sizeof *a)) return -1;
+        d = a->data; n = a->count;
+        if (n == 2 && MEM_FREED(d, 2 * sizeof(Janet))) return -1;
+    } else {
+        d = janet_unwrap_tuple(x);
+        if (MEM_FREED(janet_tuple_head(d), sizeof(JanetTupleHead))) return -1;
+        n = janet_tuple_length(d);
+    }
+    if (n != 2 || !janet_checktype(d[0], JANET_NUMBER) || !janet_checktype(d[1], JANET_STRING)) return -2;
+    int inner = pay_read(d[1]);
+    if (inner < 0) return inner;
+    return inner == (int) janet_unwrap_number(d[0]) ? inner : -2;
+}
+
+static int is_payload_shape(Janet x) {
+    if (janet_checktype(x, JANET_BUFFER) || janet_checktype(x, JANET_ARRAY)) return 1;
+    if (janet_checktype(x, JANET_STRING)) {
+        const uint8_t *s = janet_unwrap_string(x);
+        if (MEM_FREED(janet_string_head(s), sizeof(JanetStringHead))) return 1;
+        return janet_string_length(s) > 0 && s[0] == 'P';
+    }
+    if (janet_checktype(x, JANET_TUPLE)) {
+        const Janet *t = janet_unwrap_tuple(x);
+        if (MEM_FREED(janet_tuple_head(t), sizeof(JanetTupleHead))) return 1;
+        return janet_tuple_length(t) == 2 && janet_checktype(t[0], JANET_NUMBER);
+    }
+    return 0;
+}
+
 static void canon(Janet x) {
     if (janet_checktype(x, JANET_NIL)) { lput("nil"); return; }
     if (janet_checktype(x, JANET_NUMBER)) { lput("%d", (int) janet_unwrap_number(x)); return; }
+    if (is_payload_shape(x)) {
+        int id = pay_read(x);
+        if (id == -1) {
+            /* from here on the program holds a dangling reference: no further forced collection (marking it would
+             * crash the process before the log shows who receives it) */
+            lput("?freed");
+            opt_gc = 0;
+#ifdef JANET_VERIF
+            janet_verif_gc_safepoint = NULL;
+#endif
+        } else if (id == -2) lput("?corrupt"); else lput("%d", id);
+        return;
+    }
     if (janet_checktype(x, JANET_ABSTRACT)) { lput("ch%d", cidx(janet_unwrap_abstract(x))); return; }
     if (janet_checktype(x, JANET_TUPLE)) {
         const Janet *t = janet_unwrap_tuple(x);
@@ -110,6 +207,7 @@ static void dump_pending(JanetQueue *q) {
 static int geo_wrapped = 0, geo_maxcap = 0, geo_full_wrapped = 0;
 
 static void dump_state(void) {
+    if (opt_gc & 1) { janet_collect(); n_collections++; }
     for (int c = 0; c < nch; c++) {
         JanetChannel *ch = chs[c];
         if (ch->items.head > ch->items.tail) {
@@ -191,7 +289,30 @@ static Janet cfun_ve(int32_t argc, Janet *argv) {
     canon(argv[2]);
     return argv[2];
 }
+static Janet cfun_vpay(int32_t argc, Janet *argv) {
+    janet_fixarity(argc, 2);
+    int kind = janet_getinteger(argv, 0), id = janet_getinteger(argv, 1);
+    char text[96];
+    pay_text(text, id);
+    n_heap_payloads++;
+    switch (kind) {
+        case 1: return janet_cstringv(text);
+        case 2: { JanetBuffer *b = janet_buffer(8); janet_buffer_push_cstring(b, text); return janet_wrap_buffer(b); }
+        case 3: { JanetArray *a = janet_array(2); janet_array_push(a, janet_wrap_number(id)); janet_array_push(a, janet_cstringv(text)); return janet_wrap_array(a); }
+        case 4: { Janet *t = janet_tuple_begin(2); t[0] = janet_wrap_number(id); t[1] = janet_cstringv(text); return janet_wrap_tuple(janet_tuple_end(t)); }
+        default: n_heap_payloads--; return janet_wrap_number(id);
+    }
+}
+static Janet cfun_vopt(int32_t argc, Janet *argv) {
+    janet_fixarity(argc, 1);
+    opt_gc = janet_getinteger(argv, 0);
+#ifdef JANET_VERIF
+    janet_verif_gc_safepoint = (opt_gc & 2) ? safepoint_always : NULL;
+#endif
+    return janet_wrap_nil();
+}
 static const JanetReg cfuns[] = {
+    {"vpay", cfun_vpay, NULL}, {"vopt", cfun_vopt, NULL},
     {"vchan", cfun_vchan, NULL}, {"vreg", cfun_vreg, NULL}, {"vb", cfun_vb, NULL}, {"ve", cfun_ve, NULL}, {NULL, NULL, NULL}
 };
 
@@ -211,6 +332,10 @@ static void run_program(const char *id, uint32_t seed, const char *src) {
     lgn = 0; lput("");
     nfib = 0; nch = 0; idle_forever = 0; polls = 0; vclock_ms = VCLOCK_START;
     geo_wrapped = 0; geo_maxcap = 0; geo_full_wrapped = 0;
+    opt_gc = 0; n_collections = 0; n_heap_payloads = 0; n_payload_reads = 0;
+#ifdef JANET_VERIF
+    janet_verif_gc_safepoint = NULL;
+#endif
     memset(fib, 0, sizeof fib); memset(chs, 0, sizeof chs);
     janet_rng_seed(&janet_vm.ev_rng, seed);
     JanetRNG copy = janet_vm.ev_rng;
@@ -251,7 +376,11 @@ static void run_program(const char *id, uint32_t seed, const char *src) {
         if (fib[i] && janet_fiber_status(fib[i]) == JANET_STATUS_ERROR) { lput(":"); canon(fib[i]->last_value); }
     }
     lput("|lc=%d", (int) janet_atomic_load(&janet_vm.listener_count));
-    printf("S %s %d %d %d\n", id, geo_wrapped, geo_full_wrapped, geo_maxcap);
+#ifdef JANET_VERIF
+    janet_verif_gc_safepoint = NULL;
+#endif
+    opt_gc = 0;
+    printf("S %s %d %d %d %ld %ld %ld\n", id, geo_wrapped, geo_full_wrapped, geo_maxcap, n_collections, n_heap_payloads, n_payload_reads);
     printf("P %s %s R=%s %s\n", id, verdict, rbuf, lg);
     int dirty = strcmp(verdict, "ok") != 0 || janet_atomic_load(&janet_vm.listener_count) != 0
                 || janet_vm.spawn.head != janet_vm.spawn.tail || janet_vm.tq_count != 0;
